@@ -42,6 +42,7 @@ class FakeSock:
         self.waiting = False
         self.timeout = None
         self.recv_calls = 0
+        self.peername_fails = False
 
     # -- harness side
     def feed(self, data):
@@ -96,6 +97,8 @@ class FakeSock:
         pass
 
     def getpeername(self):
+        if self.peername_fails:
+            raise OSError(errno.ENOTCONN, "Transport endpoint is not connected")
         return ("fake", self.index)
 
     def getsockname(self):
@@ -170,8 +173,11 @@ class Resource:
 
 
 class Rig:
-    def __init__(self, servertype, poolsize=8, session_class=True):
+    def __init__(self, servertype, poolsize=8, session_class=True, linger=None):
         from Pyro5 import config, server, errors, callcontext
+        self._saved_linger = config.ITER_STREAM_LINGER
+        if linger is not None:
+            config.ITER_STREAM_LINGER = linger
         self.servertype = servertype
         self.saved = (config.SERVERTYPE, config.THREADPOOL_SIZE, config.THREADPOOL_SIZE_MIN, config.COMMTIMEOUT,
                       config.SERIALIZER, config.ITER_STREAMING, config.MAX_MESSAGE_SIZE, config.LOGWIRE)
@@ -271,7 +277,11 @@ class Rig:
                 rig.ctx.track_resource(rig.resource(r))
             for r in spec.get("untrack", []):
                 rig.ctx.untrack_resource(rig.resource(r))
+            for k in spec.get("mutreq", []):
+                rig.ctx.annotations["X%03d" % k] = b"m"      # a method may scribble on the request annotations it was given
             out = spec.get("out", "ret")
+            if out == "stream":
+                return (i for i in range(3))                  # an item stream stays open on the connection
             if out == "ret":
                 return spec["token"]
             if out == "retbad":
@@ -361,11 +371,12 @@ class Rig:
             return self.resources[rid]
 
     # ------------------------------------------------------------------------------------------
-    def deliver(self, idx, data, ending=None):
+    def deliver(self, idx, data, ending=None, peername_fails=False):
         """the peer of connection idx sends `data` and then (optionally) ends the connection"""
         while len(self.socks) <= idx:
             self.socks.append(FakeSock(len(self.socks)))
         s = self.socks[idx]
+        s.peername_fails = peername_fails
         first = idx not in self.started
         s.feed(data)
         if ending:
@@ -468,6 +479,14 @@ class Rig:
             pos += 40 + dsz + asz
         return out
 
+    def collect_garbage(self):
+        """drop the harness's own references to connection objects and let the collector run their __del__
+        (a second close() must close nothing again)"""
+        import gc
+        self.conns.clear()
+        self.ctx.client = None
+        gc.collect()
+
     def observe(self, idx):
         s = self.socks[idx] if idx < len(self.socks) else None
         conn = self.conns.get(idx)
@@ -507,6 +526,7 @@ class Rig:
             self._forget_types()
         finally:
             from Pyro5 import server as _server
+            config.ITER_STREAM_LINGER = self._saved_linger
             _server._OnewayCallThread.run = self._orig_oneway_run
             (config.SERVERTYPE, config.THREADPOOL_SIZE, config.THREADPOOL_SIZE_MIN, config.COMMTIMEOUT,
              config.SERIALIZER, config.ITER_STREAMING, config.MAX_MESSAGE_SIZE, config.LOGWIRE) = self.saved
